@@ -675,13 +675,14 @@ pub(super) fn range_of_ranges(ranges: Vec<Range<rq::Expr>>) -> Result<Range<i64>
         let mut range = try_range_into_int(range)?;
 
         // b = b + a.start -1 (take care of 1-based index!)
-        // (saturating: positions beyond i64::MAX denote no row either way)
+        // (`- 1` comes first, so that a bound of i64::MAX is not clipped; saturating:
+        // positions beyond i64::MAX denote no row either way)
         range.start = range
             .start
-            .or_map(current.start, |a, b| a.saturating_add(b).saturating_sub(1));
+            .or_map(current.start, |a, b| a.saturating_sub(1).saturating_add(b));
         range.end = range
             .end
-            .map(|b| current.start.unwrap_or(1).saturating_add(b).saturating_sub(1));
+            .map(|b| current.start.unwrap_or(1).saturating_sub(1).saturating_add(b));
 
         // b.end = min(a.end, b.end)
         range.end = current.end.or_map(range.end, i64::min);
